@@ -104,6 +104,10 @@ func (prom *Prometheus) RangeQuery(ctx context.Context, expr string, params Rang
 
 	var slices []TimeRange
 	queryStep := (time.Hour * 2).Round(step)
+	if queryStep < step {
+		// With step > 4h the above rounds down to zero and sliceRange would never finish.
+		queryStep = step
+	}
 	if queryStep > lookback {
 		queryStep = lookback
 		slices = append(slices, TimeRange{Start: start, End: end})
